@@ -380,26 +380,29 @@ def check_c12(tier):
 # ---------------------------------------------------------------------------
 
 C13_LEN = {"quick": 3, "thorough": 3}
-C13_SIM = {"quick": (400, 7), "thorough": (4000, 8)}
+C13_SIM = {"quick": (300, 7), "thorough": (2500, 8)}
 
 
 def check_c13(tier):
     t0 = time.time()
     inputs = []
     gens = []
-    cfg = os.path.join(WORK, "Gen_Combinators_bfs.cfg")
-    _cfg(cfg, "Spec", [("U", "<- UK"), ("MaxLen", f"= {C13_LEN[tier]}")], invs=("Dump",))
-    r = tlc("Gen_Combinators.tla", cfg, workers=1, timeout=3000, tag="gencomb")
-    require_ok(r, "Gen_Combinators bfs")
-    got = tlc_lines(r["out"], "REPLAY")
-    gens.append({"mode": "exhaustive", "max_len": C13_LEN[tier], "sequences": len(got),
-                 "states": r.get("distinct", 0), "wall_s": r["wall_s"]})
-    states = r.get("states", 0)
-    distinct = r.get("distinct", 0)
-    inputs.extend(got)
+    states = distinct = 0
+    groups = [("pairs", 0), ("fin3", 0)] if tier == "quick" else [("bfs", C13_LEN[tier])]
+    for grp, maxlen in groups:
+        cfg = os.path.join(WORK, f"Gen_Combinators_{grp}.cfg")
+        _cfg(cfg, "Spec", [("U", "<- UK"), ("MaxLen", f"= {maxlen}"), ("Group", f'= "{grp}"')], invs=("Dump",))
+        r = tlc("Gen_Combinators.tla", cfg, workers=1, timeout=3000, tag="gencomb" + grp, heap="6g")
+        require_ok(r, f"Gen_Combinators {grp}")
+        got = tlc_lines(r["out"], "REPLAY")
+        gens.append({"mode": "exhaustive:" + grp, "max_len": maxlen or (2 if grp == "pairs" else 3),
+                     "sequences": len(got), "states": r.get("distinct", 0), "wall_s": r["wall_s"]})
+        states += r.get("states", 0)
+        distinct += r.get("distinct", 0)
+        inputs.extend(got)
     num, depth = C13_SIM[tier]
     cfg = os.path.join(WORK, "Gen_Combinators_sim.cfg")
-    _cfg(cfg, "Spec", [("U", "<- UK"), ("MaxLen", f"= {depth}")], invs=("Dump",))
+    _cfg(cfg, "Spec", [("U", "<- UK"), ("MaxLen", f"= {depth}"), ("Group", '= "bfs"')], invs=("Dump",))
     r = tlc("Gen_Combinators.tla", cfg, workers=1, simulate={"num": num, "depth": depth + 1,
                                                             "seed": seed() * 1000 + 13},
             timeout=3000, tag="gencombsim")
@@ -446,8 +449,9 @@ def check_c13(tier):
         "comparisons": len(vs) * len(sample["results"]),
         "evaluations": len(vs),
         "distinct_nontrivial": nontrivial,
-        "rule": "inputs are all sequences over the 16-symbol alphabet of Gen_Combinators.tla up to MaxLen "
-                "(distinct by construction) plus simulated longer ones; non-trivial if the input contains a "
+        "rule": "inputs over the 25-symbol alphabet of Gen_Combinators.tla: quick = all sequences of length <= 2 "
+                "plus all triples with run-Finished at one position; thorough = all sequences up to length 3; "
+                "plus simulated longer ones (distinct by construction); non-trivial if the input contains a "
                 "Skipped step (rewrite can apply) or a run-Finished together with a repeatable failure",
         "samples": [{"input": [_short(e) for e in sample["inp"]],
                      "leaves_of_fos_rep_failed": [[_short(e) for e in leaf]
